@@ -257,20 +257,26 @@ func (k Keeper) deductUnbondingDelegation(ctx context.Context, delAddr sdk.AccAd
 		return math.Int{}, types.ErrNoUnbondingDelegationEntries
 	}
 	removeAmt := math.ZeroInt()
+	// entries are consumed in order; the ones that remain are collected in a new slice
+	// (removing from ubd.Entries while ranging over it skips entries and runs past the end)
+	kept := make([]stakingtypes.UnbondingDelegationEntry, 0, len(ubd.Entries))
 	for i, u := range ubd.Entries {
+		if tokens.IsZero() {
+			kept = append(kept, ubd.Entries[i:]...)
+			break
+		}
 		if u.Balance.LT(tokens) {
 			tokens = tokens.Sub(u.Balance)
 			removeAmt = removeAmt.Add(u.Balance)
-			ubd.RemoveEntry(int64(i))
-		} else {
-			u.Balance = u.Balance.Sub(tokens)
-			u.InitialBalance = u.InitialBalance.Sub(tokens)
-			ubd.Entries[i] = u
-			removeAmt = removeAmt.Add(tokens)
-			tokens = math.ZeroInt()
-			break
+			continue
 		}
+		u.Balance = u.Balance.Sub(tokens)
+		u.InitialBalance = u.InitialBalance.Sub(tokens)
+		kept = append(kept, u)
+		removeAmt = removeAmt.Add(tokens)
+		tokens = math.ZeroInt()
 	}
+	ubd.Entries = kept
 
 	if len(ubd.Entries) == 0 {
 		err = k.stakingKeeper.RemoveUnbondingDelegation(ctx, ubd)
